@@ -223,10 +223,13 @@ func VH_renderTokens(a []string) {
 var vPrefixes = []string{"", "MIT AND ", "(", "GPL-2.0-or-later OR ", "Apache-2.0-or-later AND ", "Apache-2.0+ AND ", "(LicenseRef-a OR ",
 	"mit-or-later AND ( ", "GPL-2.0+ WITH Bison-exception-2.2 AND ", "ISC-or-later AND Zlib-or-later OR ", "DocumentRef-d:LicenseRef-r AND   ", "MIT-only OR "}
 
-// VH_offsets [prefix k form]: an unknown id of k symbolic id characters (form "id"), or a
+// VH_offsets [prefix k form] (prefix: the text itself, or #i for the i-th built-in prefix): an unknown id of k symbolic id characters (form "id"), or a
 // stray byte / truncated reference (form "stray", "ref"), after a valid prefix.
 func VH_offsets(a []string) {
-	prefix, k, form := vPrefixes[vAtoi(a[0])], vAtoi(a[1]), a[2]
+	prefix, k, form := a[0], vAtoi(a[1]), a[2]
+	if len(a[0]) > 0 && a[0][0] == '#' {
+		prefix = vPrefixes[vAtoi(a[0][1:])]
+	}
 	culprit := ""
 	switch form {
 	case "id":
